@@ -6,6 +6,246 @@
 pub fn dispatch(kind: &str, a: &[&str]) -> Option<String> {
     match (kind, a) {
         ("de.model.text", [path, enc, shape, h, _aux]) => crate::fams::fam_de::dispatch("de.text", &[path, enc, shape, h]),
+        ("de.hint", _) => dispatch_hint(kind, a),
+        ("de.hint.model", _) => dispatch_hint_model(kind, a),
+        _ => None,
+    }
+}
+
+// ------------------------------------------------------------------------------------------------
+// [a_c02, wave 4]  de.hint <path> <enc> <hint> <hex>
+//
+// The Deserializer methods of the two text deserializers that NO shape of fam_de.rs ever calls
+// (deserialize_char / str / bytes / byte_buf / unit / unit_struct / newtype_struct / tuple_struct /
+// i128 / u128 / identifier on a value, and every typed hint seen by a visitor that records WHICH
+// visit_* call it received).  The document is read through the real public entry points
+// (fam_de::run_text: slice | tape | objreader | reader:.. | freader:..) into
+//     struct { v: <hint>, w: any }          (other keys ignored)
+// where field `v` is requested with `deserialize_<hint>` and answered by a recording visitor, and
+// field `w` (written AFTER v in the generated documents) shows whether the deserializer is still
+// positioned correctly after v.  Output:  v=<rec> w=<rec>   | ERR:<class>
+//   rec = (bool b) (i64 n) (u64 n) (i128 n) (u128 n) (f64 hex16) (str hex) (bytes hex) (unit) (none)
+//         (some rec) (newtype rec) (seq rec..) (map (rec rec)..) (enum hexname) (absent)
+// visit_str / visit_borrowed_str / visit_string are all printed `str` (likewise bytes): the property
+// distinguishes values, not borrowing.
+use serde::de::{self, Deserialize, DeserializeSeed, Deserializer, EnumAccess, IgnoredAny, MapAccess, SeqAccess, VariantAccess, Visitor};
+use std::cell::RefCell;
+use std::fmt;
+
+thread_local! {
+    static HINT: RefCell<String> = RefCell::new(String::new());
+}
+
+fn hx(b: &[u8]) -> String {
+    if b.is_empty() {
+        "-".to_string()
+    } else {
+        crate::util::hex(b)
+    }
+}
+
+struct Probe;
+struct AnySeed;
+struct HintSeed(String);
+
+impl<'de> DeserializeSeed<'de> for AnySeed {
+    type Value = String;
+    fn deserialize<D: Deserializer<'de>>(self, d: D) -> Result<String, D::Error> {
+        d.deserialize_any(Probe)
+    }
+}
+
+impl<'de> Visitor<'de> for Probe {
+    type Value = String;
+    fn expecting(&self, f: &mut fmt::Formatter) -> fmt::Result {
+        f.write_str("anything (probe)")
+    }
+    fn visit_bool<E: de::Error>(self, v: bool) -> Result<String, E> {
+        Ok(format!("(bool {})", v as u8))
+    }
+    fn visit_i64<E: de::Error>(self, v: i64) -> Result<String, E> {
+        Ok(format!("(i64 {})", v))
+    }
+    fn visit_u64<E: de::Error>(self, v: u64) -> Result<String, E> {
+        Ok(format!("(u64 {})", v))
+    }
+    fn visit_i128<E: de::Error>(self, v: i128) -> Result<String, E> {
+        Ok(format!("(i128 {})", v))
+    }
+    fn visit_u128<E: de::Error>(self, v: u128) -> Result<String, E> {
+        Ok(format!("(u128 {})", v))
+    }
+    fn visit_f64<E: de::Error>(self, v: f64) -> Result<String, E> {
+        Ok(format!("(f64 {:016x})", v.to_bits()))
+    }
+    fn visit_str<E: de::Error>(self, v: &str) -> Result<String, E> {
+        Ok(format!("(str {})", hx(v.as_bytes())))
+    }
+    fn visit_bytes<E: de::Error>(self, v: &[u8]) -> Result<String, E> {
+        Ok(format!("(bytes {})", hx(v)))
+    }
+    fn visit_none<E: de::Error>(self) -> Result<String, E> {
+        Ok("(none)".to_string())
+    }
+    fn visit_unit<E: de::Error>(self) -> Result<String, E> {
+        Ok("(unit)".to_string())
+    }
+    fn visit_some<D: Deserializer<'de>>(self, d: D) -> Result<String, D::Error> {
+        Ok(format!("(some {})", d.deserialize_any(Probe)?))
+    }
+    fn visit_newtype_struct<D: Deserializer<'de>>(self, d: D) -> Result<String, D::Error> {
+        Ok(format!("(newtype {})", d.deserialize_any(Probe)?))
+    }
+    fn visit_seq<A: SeqAccess<'de>>(self, mut a: A) -> Result<String, A::Error> {
+        let mut s = String::from("(seq");
+        while let Some(x) = a.next_element_seed(AnySeed)? {
+            s.push(' ');
+            s.push_str(&x);
+        }
+        s.push(')');
+        Ok(s)
+    }
+    fn visit_map<A: MapAccess<'de>>(self, mut a: A) -> Result<String, A::Error> {
+        let mut s = String::from("(map");
+        while let Some(k) = a.next_key_seed(AnySeed)? {
+            let v = a.next_value_seed(AnySeed)?;
+            s.push_str(&format!(" ({} {})", k, v));
+        }
+        s.push(')');
+        Ok(s)
+    }
+    fn visit_enum<A: EnumAccess<'de>>(self, a: A) -> Result<String, A::Error> {
+        let (name, acc) = a.variant::<String>()?;
+        acc.unit_variant()?;
+        Ok(format!("(enum {})", hx(name.as_bytes())))
+    }
+}
+
+impl<'de> DeserializeSeed<'de> for HintSeed {
+    type Value = String;
+    fn deserialize<D: Deserializer<'de>>(self, d: D) -> Result<String, D::Error> {
+        match self.0.as_str() {
+            "any" => d.deserialize_any(Probe),
+            "bool" => d.deserialize_bool(Probe),
+            "i8" => d.deserialize_i8(Probe),
+            "i16" => d.deserialize_i16(Probe),
+            "i32" => d.deserialize_i32(Probe),
+            "i64" => d.deserialize_i64(Probe),
+            "i128" => d.deserialize_i128(Probe),
+            "u8" => d.deserialize_u8(Probe),
+            "u16" => d.deserialize_u16(Probe),
+            "u32" => d.deserialize_u32(Probe),
+            "u64" => d.deserialize_u64(Probe),
+            "u128" => d.deserialize_u128(Probe),
+            "f32" => d.deserialize_f32(Probe),
+            "f64" => d.deserialize_f64(Probe),
+            "char" => d.deserialize_char(Probe),
+            "str" => d.deserialize_str(Probe),
+            "string" => d.deserialize_string(Probe),
+            "bytes" => d.deserialize_bytes(Probe),
+            "byte_buf" => d.deserialize_byte_buf(Probe),
+            "option" => d.deserialize_option(Probe),
+            "unit" => d.deserialize_unit(Probe),
+            "unit_struct" => d.deserialize_unit_struct("ProbeUnit", Probe),
+            "newtype_struct" => d.deserialize_newtype_struct("ProbeNewtype", Probe),
+            "seq" => d.deserialize_seq(Probe),
+            "tuple" => d.deserialize_tuple(2, Probe),
+            "tuple_struct" => d.deserialize_tuple_struct("ProbeTuple", 2, Probe),
+            "map" => d.deserialize_map(Probe),
+            "struct" => d.deserialize_struct("ProbeStruct", &["a", "b"], Probe),
+            "enum" => d.deserialize_enum("ProbeEnum", &["a", "b"], Probe),
+            "identifier" => d.deserialize_identifier(Probe),
+            "ignored_any" => d.deserialize_ignored_any(Probe),
+            h => panic!("unknown hint {}", h),
+        }
+    }
+}
+
+struct HintDoc(String);
+struct HintDocV;
+
+impl<'de> Visitor<'de> for HintDocV {
+    type Value = String;
+    fn expecting(&self, f: &mut fmt::Formatter) -> fmt::Result {
+        f.write_str("a document with fields v and w")
+    }
+    fn visit_map<A: MapAccess<'de>>(self, mut a: A) -> Result<String, A::Error> {
+        let hint = HINT.with(|h| h.borrow().clone());
+        let mut v: Option<String> = None;
+        let mut w: Option<String> = None;
+        while let Some(k) = a.next_key::<String>()? {
+            if k == "v" {
+                v = Some(a.next_value_seed(HintSeed(hint.clone()))?);
+            } else if k == "w" {
+                w = Some(a.next_value_seed(AnySeed)?);
+            } else {
+                a.next_value::<IgnoredAny>()?;
+            }
+        }
+        Ok(format!("v={} w={}", v.unwrap_or_else(|| "(absent)".to_string()), w.unwrap_or_else(|| "(absent)".to_string())))
+    }
+}
+
+impl<'de> Deserialize<'de> for HintDoc {
+    fn deserialize<D: Deserializer<'de>>(d: D) -> Result<Self, D::Error> {
+        d.deserialize_map(HintDocV).map(HintDoc)
+    }
+}
+
+pub fn dispatch_hint(kind: &str, a: &[&str]) -> Option<String> {
+    match (kind, a) {
+        ("de.hint", [path, enc, hint, h]) => {
+            HINT.with(|x| *x.borrow_mut() = hint.to_string());
+            let data = crate::util::unhex(h);
+            let mut stats = None;
+            let r = crate::fams::fam_de::run_text::<HintDoc>(path, crate::fams::fam_de::parse_enc(enc), &data, &mut stats);
+            Some(match r {
+                Ok(x) => x.0,
+                Err(e) => crate::fams::fam_de::err_class(&e),
+            })
+        }
+        _ => None,
+    }
+}
+
+// [a_c02] de.hint.model <cls> <enc> <hint> <hex> <aux>: the implementation side of the model kind of
+// ocaml/fam_tde.ml -- `de.hint` through the slice path (cls = tape) or a reader with the default buffer
+// (cls = stream), reduced to what ONE deserializer step decides: the primitive visit with its payload, or the
+// kind of the compound visit.
+fn reduce_hint(out: &str) -> String {
+    let rest = match out.strip_prefix("v=") {
+        Some(r) => r,
+        None => return out.to_string(),
+    };
+    // the record of v: up to its matching parenthesis
+    let mut depth = 0usize;
+    let mut end = rest.len();
+    for (i, c) in rest.char_indices() {
+        if c == '(' {
+            depth += 1;
+        } else if c == ')' {
+            depth -= 1;
+            if depth == 0 {
+                end = i + 1;
+                break;
+            }
+        }
+    }
+    let rec = &rest[..end];
+    for head in ["some", "newtype", "seq", "map", "enum"] {
+        if rec.starts_with(&format!("({} ", head)) || rec == format!("({})", head) {
+            return format!("({})", head);
+        }
+    }
+    rec.to_string()
+}
+
+pub fn dispatch_hint_model(kind: &str, a: &[&str]) -> Option<String> {
+    match (kind, a) {
+        ("de.hint.model", [cls, enc, hint, h, _aux]) => {
+            let path = if *cls == "tape" { "slice" } else { "reader:32768:-" };
+            dispatch_hint("de.hint", &[path, enc, hint, h]).map(|o| reduce_hint(&o))
+        }
         _ => None,
     }
 }
